@@ -54,27 +54,27 @@ type Table struct {
 }
 
 type Universe struct {
-	Fset     *token.FileSet
-	Pkgs     map[string]*packages.Package // by alias
-	Funcs    map[string]*FuncInfo
-	FuncByObj map[*types.Func]*FuncInfo
-	Tables   map[*types.Var]*Table
-	PkgVars  map[*types.Var]ast.Expr // initialiser of every package-level var
-	Sentinel map[*types.Var]int      // cvsserr sentinels -> bit index
+	Fset          *token.FileSet
+	Pkgs          map[string]*packages.Package // by alias
+	Funcs         map[string]*FuncInfo
+	FuncByObj     map[*types.Func]*FuncInfo
+	Tables        map[*types.Var]*Table
+	PkgVars       map[*types.Var]ast.Expr // initialiser of every package-level var
+	Sentinel      map[*types.Var]int      // cvsserr sentinels -> bit index
 	SentinelNames []string
-	Contracts map[string]*Contract
-	Preds    map[string]*Pred
-	Lemmas   []*Lemma
-	Specs    map[string]*SpecSig
-	SpecDefs map[string]*SpecDef
-	BasePrelude string
-	Oracle   *Oracle
-	Prelude  string
-	RepoDir  string
-	Problems []string
-	problemSeen map[string]bool
-	mu       sync.Mutex
-	typeCache map[string]types.Type
+	Contracts     map[string]*Contract
+	Preds         map[string]*Pred
+	Lemmas        []*Lemma
+	Specs         map[string]*SpecSig
+	SpecDefs      map[string]*SpecDef
+	BasePrelude   string
+	Oracle        *Oracle
+	Prelude       string
+	RepoDir       string
+	Problems      []string
+	problemSeen   map[string]bool
+	mu            sync.Mutex
+	typeCache     map[string]types.Type
 }
 
 func aliasOf(p *types.Package) string {
@@ -108,7 +108,7 @@ func loadUniverse(repo string) (*Universe, error) {
 		Dir:        repo,
 		BuildFlags: []string{"-tags=verif"},
 		Env:        append(os.Environ(), "GOFLAGS=-mod=mod", "GOPROXY=off", "GOSUMDB=off", "GOTOOLCHAIN=local"),
-		ParseFile: nil,
+		ParseFile:  nil,
 	}
 	pkgs, err := packages.Load(cfg, "./cvsserr", "./v2/metric", "./v3/metric", "./v3/report", "./v3/report/names", "./v3/version")
 	if err != nil {
